@@ -248,5 +248,502 @@ theorem expressionStatement_ev {s : PState} {e : PExpr} {term : Option Token} {r
     (by simp [hn]) hterm hfol]
   simp [advs]
 
+theorem returnStatement_none_ev (g : Nat) {s : PState} {tok : Token} {term : Option Token} {rest : List Token}
+    (hfn : s.inFn = true) (h : s.after = term.toList ++ rest) (hterm : TermOK term)
+    (hfol : term = none → Closes rest) :
+    returnStatement g tok s = .ok (.ret tok none) (advs s term.toList rest) := by
+  unfold returnStatement
+  simp only [hfn, Bool.not_true, Bool.false_eq_true, if_false]
+  cases term with
+  | some t =>
+    rw [matchToken_hit (t := t) (r := rest) h (hterm t rfl) (by decide)]
+    rfl
+  | none =>
+    obtain ⟨t, r, rfl, ht⟩ := hfol rfl
+    have h' : s.after = t :: r := h
+    rw [matchToken_miss h' (by rcases ht with e | e <;> rw [e] <;> decide)]
+    simp only [PRes.bind_ok]
+    rw [isAtEnd_eq h']
+    simp only [PRes.bind_ok]
+    rw [check_eq _ h']
+    obtain ⟨b, a, f1, f2⟩ := s
+    simp at h'
+    subst h'
+    rcases ht with e | e <;> simp [e, advs]
+
+theorem returnStatement_some_ev {s : PState} {tok : Token} {e : PExpr} {term : Option Token} {rest : List Token}
+    (hfn : s.inFn = true) (he : e.OK) (h : s.after = e.toks ++ (term.toList ++ rest)) (hterm : TermOK term)
+    (hfol : term = none → Closes rest) :
+    Evt (fun g => returnStatement g tok s) (.ret tok (some e.tree)) (advs s (e.toks ++ term.toList) rest) := by
+  obtain ⟨nxt, r, hn, hk⟩ := term_head hterm hfol
+  obtain ⟨t0, r0, h0, hs0⟩ := he.first
+  have hkw := exprStart_not_kw hs0
+  have h' : s.after = t0 :: (r0 ++ (term.toList ++ rest)) := by rw [h, h0]; rfl
+  rw [hn] at h
+  obtain ⟨f, hf⟩ := he s nxt r h (stops_of_term hk)
+  refine ⟨f, fun g hg => ?_⟩
+  dsimp only
+  unfold returnStatement
+  simp only [hfn, Bool.not_true, Bool.false_eq_true, if_false]
+  rw [matchToken_miss h' hkw.2.2.2.1]
+  simp only [PRes.bind_ok]
+  rw [isAtEnd_eq h']
+  simp only [PRes.bind_ok]
+  rw [check_eq _ h']
+  have e1 : (t0.tt == TT.eof) = false := by simpa using hkw.2.2.2.2.2.1
+  have e2 : (t0.tt == TT.rightBrace) = false := by simpa using hkw.2.2.2.2.1
+  simp only [PRes.bind_ok, e1, e2, Bool.not_false, Bool.and_false, Bool.or_false, Bool.false_eq_true, if_false]
+  rw [hf g hg]
+  simp only [PRes.bind_ok]
+  rw [terminator_ev "return_semicolon" false (s := advs s e.toks (nxt :: r)) (term := term) (rest := rest)
+    (by simp [hn]) hterm hfol]
+  simp [advs]
+
+/-! ## comma-separated token lists (import names, parameters) -/
+
+/-- `, t` pairs after the first element -/
+def moreToks : List (Token × Token) → List Token
+  | [] => []
+  | p :: r => p.1 :: p.2 :: moreToks r
+
+/-- a non-empty comma-separated list of tokens: the first element and the (comma, element) pairs -/
+structure SepList where
+  first : Token
+  more : List (Token × Token)
+
+def SepList.toks (l : SepList) : List Token := l.first :: moreToks l.more
+def SepList.items (l : SepList) : List Token := l.first :: l.more.map (·.2)
+/-- all elements are of kind `k`, all separators are commas -/
+def SepList.OK (k : TT) (l : SepList) : Prop := l.first.tt = k ∧ ∀ p ∈ l.more, p.1.tt = .comma ∧ p.2.tt = k
+
+theorem importNames_ev (lb : Token) : ∀ (more : List (Token × Token)) (first : Token) (acc : List Token)
+    (s : PState) (nxt : Token) (rest : List Token) (g : Nat),
+    s.after = first :: (moreToks more ++ nxt :: rest) → first.tt = .stringLiteral →
+    (∀ p ∈ more, p.1.tt = .comma ∧ p.2.tt = .stringLiteral) → nxt.tt ≠ .comma →
+    acc.length + more.length + 1 ≤ 63 → more.length + 1 ≤ g →
+    importNames g lb acc s = .ok (acc ++ first :: more.map (·.2)) (advs s (first :: moreToks more) (nxt :: rest))
+  | [], first, acc, s, nxt, rest, g, h, hf, _, hn, hl, hg => by
+    obtain ⟨g, rfl⟩ : ∃ g', g = g' + 1 := ⟨g - 1, by simp at hg; omega⟩
+    have h : s.after = first :: nxt :: rest := by simpa [moreToks] using h
+    simp only [importNames]
+    rw [if_neg (by simp at hl; omega)]
+    rw [consume_hit _ h hf (by decide)]
+    simp only [PRes.bind_ok]
+    rw [matchToken_miss (s := adv s first (nxt :: rest)) (t := nxt) (r := rest) rfl hn]
+    rfl
+  | p :: more, first, acc, s, nxt, rest, g, h, hf, hm, hn, hl, hg => by
+    obtain ⟨g, rfl⟩ : ∃ g', g = g' + 1 := ⟨g - 1, by simp at hg; omega⟩
+    have hp := hm p (by simp)
+    have h : s.after = first :: p.1 :: p.2 :: (moreToks more ++ nxt :: rest) := by simpa [moreToks] using h
+    simp only [importNames]
+    rw [if_neg (by simp at hl; omega)]
+    rw [consume_hit _ h hf (by decide)]
+    simp only [PRes.bind_ok]
+    rw [matchToken_hit (s := adv s first _) (t := p.1) (r := p.2 :: (moreToks more ++ nxt :: rest)) rfl hp.1 (by decide)]
+    simp only [PRes.bind_ok]
+    rw [importNames_ev lb more p.2 (acc ++ [first]) _ nxt rest g rfl hp.2
+      (fun q hq => hm q (List.mem_cons_of_mem _ hq)) hn (by simp at hl ⊢; omega) (by simp at hg; omega)]
+    simp [advs, adv, moreToks]
+
+theorem procParams_ev : ∀ (more : List (Token × Token)) (first : Token) (acc : List (Str × Token))
+    (s : PState) (nxt : Token) (rest : List Token) (g : Nat),
+    s.after = first :: (moreToks more ++ nxt :: rest) → first.tt = .identifier →
+    (∀ p ∈ more, p.1.tt = .comma ∧ p.2.tt = .identifier) → nxt.tt ≠ .comma →
+    acc.length + more.length + 1 ≤ 255 → more.length + 1 ≤ g →
+    procParams g acc s = .ok (acc ++ (first :: more.map (·.2)).map (fun t => (t.lexeme, t)))
+      (advs s (first :: moreToks more) (nxt :: rest))
+  | [], first, acc, s, nxt, rest, g, h, hf, _, hn, hl, hg => by
+    obtain ⟨g, rfl⟩ : ∃ g', g = g' + 1 := ⟨g - 1, by simp at hg; omega⟩
+    have h : s.after = first :: nxt :: rest := by simpa [moreToks] using h
+    simp only [procParams]
+    rw [if_neg (by simp at hl; omega)]
+    rw [consume_hit _ h hf (by decide)]
+    simp only [PRes.bind_ok]
+    rw [matchToken_miss (s := adv s first (nxt :: rest)) (t := nxt) (r := rest) rfl hn]
+    rfl
+  | p :: more, first, acc, s, nxt, rest, g, h, hf, hm, hn, hl, hg => by
+    obtain ⟨g, rfl⟩ : ∃ g', g = g' + 1 := ⟨g - 1, by simp at hg; omega⟩
+    have hp := hm p (by simp)
+    have h : s.after = first :: p.1 :: p.2 :: (moreToks more ++ nxt :: rest) := by simpa [moreToks] using h
+    simp only [procParams]
+    rw [if_neg (by simp at hl; omega)]
+    rw [consume_hit _ h hf (by decide)]
+    simp only [PRes.bind_ok]
+    rw [matchToken_hit (s := adv s first _) (t := p.1) (r := p.2 :: (moreToks more ++ nxt :: rest)) rfl hp.1 (by decide)]
+    simp only [PRes.bind_ok]
+    rw [procParams_ev more p.2 (acc ++ [(first.lexeme, first)]) _ nxt rest g rfl hp.2
+      (fun q hq => hm q (List.mem_cons_of_mem _ hq)) hn (by simp at hl ⊢; omega) (by simp at hg; omega)]
+    simp [advs, adv, moreToks]
+
+/-! ## the three IMPORT forms (the cursor stands behind `IMPORT`) -/
+
+theorem importStatement_all_ev (g : Nat) {s : PState} {it mt mn : Token} {term : Option Token} {rest : List Token}
+    (h : s.after = mt :: mn :: (term.toList ++ rest)) (hmt : mt.tt = .mod_) (hmn : mn.tt = .stringLiteral)
+    (hterm : TermOK term) (hfol : term = none → Closes rest) :
+    importStatement g it s = .ok (.import_ it mt none none mn) (advs s (mt :: mn :: term.toList) rest) := by
+  unfold importStatement
+  rw [matchToken_miss h (by rw [hmt]; decide)]
+  simp only [PRes.bind_ok]
+  rw [matchToken_miss h (by rw [hmt]; decide)]
+  simp only [PRes.bind_ok]
+  rw [consume_hit _ h hmt (by decide)]
+  simp only [PRes.bind_ok]
+  rw [consume_hit (s := adv s mt _) (t := mn) (r := term.toList ++ rest) _ rfl hmn (by decide)]
+  simp only [PRes.bind_ok]
+  rw [terminator_ev "import_semicolon" false (s := adv (adv s mt _) mn (term.toList ++ rest)) (term := term)
+    (rest := rest) rfl hterm hfol]
+  simp [advs, adv]
+
+theorem importStatement_one_ev (g : Nat) {s : PState} {it n ft mt mn : Token} {term : Option Token}
+    {rest : List Token} (h : s.after = n :: ft :: mt :: mn :: (term.toList ++ rest))
+    (hn : n.tt = .stringLiteral) (hft : ft.tt = .from_) (hmt : mt.tt = .mod_) (hmn : mn.tt = .stringLiteral)
+    (hterm : TermOK term) (hfol : term = none → Closes rest) :
+    importStatement g it s = .ok (.import_ it mt (some ft) (some [n]) mn)
+      (advs s (n :: ft :: mt :: mn :: term.toList) rest) := by
+  unfold importStatement
+  rw [matchToken_miss h (by rw [hn]; decide)]
+  simp only [PRes.bind_ok]
+  rw [matchToken_hit h hn (by decide)]
+  simp only [PRes.bind_ok]
+  rw [consume_hit (s := adv s n _) (t := ft) (r := mt :: mn :: (term.toList ++ rest)) _ rfl hft (by decide)]
+  simp only [PRes.bind_ok]
+  rw [consume_hit (s := adv (adv s n _) ft _) (t := mt) (r := mn :: (term.toList ++ rest)) _ rfl hmt (by decide)]
+  simp only [PRes.bind_ok]
+  rw [consume_hit (s := adv (adv (adv s n _) ft _) mt _) (t := mn) (r := term.toList ++ rest) _ rfl hmn (by decide)]
+  simp only [PRes.bind_ok]
+  rw [terminator_ev "import_semicolon" false (s := adv (adv (adv (adv s n _) ft _) mt _) mn (term.toList ++ rest))
+    (term := term) (rest := rest) rfl hterm hfol]
+  simp [advs, adv]
+
+theorem importStatement_list_ev {s : PState} {it lb rb ft mt mn : Token} {ns : SepList} {term : Option Token}
+    {rest : List Token} (h : s.after = lb :: (ns.toks ++ rb :: ft :: mt :: mn :: (term.toList ++ rest)))
+    (hlb : lb.tt = .leftBracket) (hns : ns.OK .stringLiteral) (hlen : ns.more.length + 1 ≤ 63)
+    (hrb : rb.tt = .rightBracket) (hft : ft.tt = .from_) (hmt : mt.tt = .mod_) (hmn : mn.tt = .stringLiteral)
+    (hterm : TermOK term) (hfol : term = none → Closes rest) :
+    Evt (fun g => importStatement g it s) (.import_ it mt (some ft) (some ns.items) mn)
+      (advs s (lb :: (ns.toks ++ rb :: ft :: mt :: mn :: term.toList)) rest) := by
+  refine ⟨ns.more.length + 1, fun g hg => ?_⟩
+  dsimp only
+  unfold importStatement
+  rw [matchToken_hit h hlb (by decide)]
+  simp only [PRes.bind_ok]
+  rw [importNames_ev lb ns.more ns.first [] (adv s lb _) rb (ft :: mt :: mn :: (term.toList ++ rest)) g
+    (by simp [SepList.toks]) hns.1 hns.2 (by rw [hrb]; decide) (by simpa using hlen) hg]
+  simp only [PRes.bind_ok]
+  rw [consume_hit (t := rb) (r := ft :: mt :: mn :: (term.toList ++ rest)) _ rfl hrb (by decide)]
+  simp only [PRes.bind_ok]
+  rw [consume_hit (t := ft) (r := mt :: mn :: (term.toList ++ rest)) _ rfl hft (by decide)]
+  simp only [PRes.bind_ok]
+  rw [consume_hit (t := mt) (r := mn :: (term.toList ++ rest)) _ rfl hmt (by decide)]
+  simp only [PRes.bind_ok]
+  rw [consume_hit (t := mn) (r := term.toList ++ rest) _ rfl hmn (by decide)]
+  simp only [PRes.bind_ok]
+  rw [terminator_ev "import_semicolon" false (term := term) (rest := rest) rfl hterm hfol]
+  simp [advs, adv, SepList.toks, SepList.items]
+
+/-! ## compound statements (the cursor stands behind the keyword that selected the form) -/
+
+theorem ifStatement_ev {s : PState} {ifTok lp rp : Token} {c : PExpr} {r1 : List Token} {thn : Stmt}
+    {s3 : PState} {nxt : Token} {r3 : List Token}
+    (h : s.after = lp :: (c.toks ++ rp :: r1)) (hlp : lp.tt = .leftParen) (hrp : rp.tt = .rightParen) (hc : c.OK)
+    (hthen : Evt (fun g => statement g (advs s (lp :: (c.toks ++ [rp])) r1)) thn s3)
+    (h3 : s3.after = nxt :: r3) (hne : nxt.tt ≠ .else_) :
+    Evt (fun g => ifStatement g ifTok s) (.ifs c.tree thn none ifTok none) s3 := by
+  obtain ⟨f1, hf1⟩ := hc (adv s lp (c.toks ++ rp :: r1)) rp r1 rfl (by rw [hrp]; decide)
+  obtain ⟨f2, hf2⟩ := hthen
+  refine Evt.of_succ (max f1 f2) (fun g hg => ?_)
+  dsimp only at hf2 ⊢
+  have hst : adv (advs (adv s lp (c.toks ++ rp :: r1)) c.toks (rp :: r1)) rp r1 =
+      advs s (lp :: (c.toks ++ [rp])) r1 := by simp [advs, adv]
+  simp only [P.ifStatement]
+  rw [consume_hit _ h hlp (by decide)]
+  simp only [PRes.bind_ok]
+  rw [hf1 g (by omega)]
+  simp only [PRes.bind_ok]
+  rw [consume_hit (t := rp) (r := r1) _ rfl hrp (by decide)]
+  simp only [PRes.bind_ok]
+  rw [hst, hf2 g (by omega)]
+  simp only [PRes.bind_ok]
+  rw [matchToken_miss h3 hne]
+  rfl
+
+theorem ifElse_ev {s : PState} {ifTok lp rp et : Token} {c : PExpr} {r1 : List Token} {thn els : Stmt}
+    {s3 s5 : PState} {r3 : List Token}
+    (h : s.after = lp :: (c.toks ++ rp :: r1)) (hlp : lp.tt = .leftParen) (hrp : rp.tt = .rightParen) (hc : c.OK)
+    (hthen : Evt (fun g => statement g (advs s (lp :: (c.toks ++ [rp])) r1)) thn s3)
+    (h3 : s3.after = et :: r3) (het : et.tt = .else_)
+    (hels : Evt (fun g => statement g (adv s3 et r3)) els s5) :
+    Evt (fun g => ifStatement g ifTok s) (.ifs c.tree thn (some els) ifTok (some et)) s5 := by
+  obtain ⟨f1, hf1⟩ := hc (adv s lp (c.toks ++ rp :: r1)) rp r1 rfl (by rw [hrp]; decide)
+  obtain ⟨f2, hf2⟩ := hthen
+  obtain ⟨f3, hf3⟩ := hels
+  refine Evt.of_succ (max f1 (max f2 f3)) (fun g hg => ?_)
+  dsimp only at hf2 hf3 ⊢
+  have hst : adv (advs (adv s lp (c.toks ++ rp :: r1)) c.toks (rp :: r1)) rp r1 =
+      advs s (lp :: (c.toks ++ [rp])) r1 := by simp [advs, adv]
+  simp only [P.ifStatement]
+  rw [consume_hit _ h hlp (by decide)]
+  simp only [PRes.bind_ok]
+  rw [hf1 g (by omega)]
+  simp only [PRes.bind_ok]
+  rw [consume_hit (t := rp) (r := r1) _ rfl hrp (by decide)]
+  simp only [PRes.bind_ok]
+  rw [hst, hf2 g (by omega)]
+  simp only [PRes.bind_ok]
+  rw [matchToken_hit h3 het (by decide)]
+  simp only [PRes.bind_ok]
+  rw [hf3 g (by omega)]
+  rfl
+
+theorem confirm_eq {s : PState} {t : Token} {b : List Token} {tt : TT} (hb : s.before = t :: b) (ht : t.tt = tt) :
+    confirm tt s = .ok () s := by
+  simp [confirm, previous, hb, ht]
+
+theorem repeatTimes_ev {s : PState} {rt tt : Token} {b : List Token} {c : PExpr} {r1 : List Token} {body : Stmt}
+    {s3 : PState}
+    (hb : s.before = rt :: b) (hrt : rt.tt = .repeat_) (h : s.after = c.toks ++ tt :: r1) (htt : tt.tt = .times)
+    (hc : c.OK) (hbody : Evt (fun g => statement g (advs s (c.toks ++ [tt]) r1)) body s3) :
+    Evt (fun g => repeatTimes g rt s) (.repeatTimes c.tree body rt tt (lastTok c.tree)) s3 := by
+  obtain ⟨f1, hf1⟩ := hc s tt r1 h (by rw [htt]; decide)
+  obtain ⟨f2, hf2⟩ := hbody
+  refine Evt.of_succ (max f1 f2) (fun g hg => ?_)
+  dsimp only at hf2 ⊢
+  have hst : adv (advs s c.toks (tt :: r1)) tt r1 = advs s (c.toks ++ [tt]) r1 := by simp [advs, adv]
+  simp only [P.repeatTimes]
+  rw [confirm_eq hb hrt]
+  simp only [PRes.bind_ok]
+  rw [hf1 g (by omega)]
+  simp only [PRes.bind_ok]
+  rw [hc.previous (hf1 g (by omega))]
+  simp only [PRes.bind_ok]
+  rw [consume_hit (t := tt) (r := r1) _ rfl htt (by decide)]
+  simp only [PRes.bind_ok]
+  rw [hst, hf2 g (by omega)]
+  rfl
+
+theorem repeatUntil_ev {s : PState} {rt ut lp rp : Token} {b : List Token} {c : PExpr} {r1 : List Token}
+    {body : Stmt} {s3 : PState}
+    (hb : s.before = rt :: b) (hrt : rt.tt = .repeat_) (h : s.after = ut :: lp :: (c.toks ++ rp :: r1))
+    (hut : ut.tt = .until_) (hlp : lp.tt = .leftParen) (hrp : rp.tt = .rightParen) (hc : c.OK)
+    (hbody : Evt (fun g => statement g (advs s (ut :: lp :: (c.toks ++ [rp])) r1)) body s3) :
+    Evt (fun g => repeatUntil g rt s) (.repeatUntil c.tree body rt ut) s3 := by
+  obtain ⟨f1, hf1⟩ := hc (adv (adv s ut (lp :: (c.toks ++ rp :: r1))) lp (c.toks ++ rp :: r1)) rp r1 rfl
+    (by rw [hrp]; decide)
+  obtain ⟨f2, hf2⟩ := hbody
+  refine Evt.of_succ (max f1 f2) (fun g hg => ?_)
+  dsimp only at hf2 ⊢
+  have hst : adv (advs (adv (adv s ut (lp :: (c.toks ++ rp :: r1))) lp (c.toks ++ rp :: r1)) c.toks (rp :: r1)) rp r1
+      = advs s (ut :: lp :: (c.toks ++ [rp])) r1 := by simp [advs, adv]
+  simp only [P.repeatUntil]
+  rw [confirm_eq hb hrt]
+  simp only [PRes.bind_ok]
+  rw [consume_hit _ h hut (by decide)]
+  simp only [PRes.bind_ok]
+  rw [consume_hit (t := lp) (r := c.toks ++ rp :: r1) _ rfl hlp (by decide)]
+  simp only [PRes.bind_ok]
+  rw [hf1 g (by omega)]
+  simp only [PRes.bind_ok]
+  rw [consume_hit (t := rp) (r := r1) _ rfl hrp (by decide)]
+  simp only [PRes.bind_ok]
+  rw [hst, hf2 g (by omega)]
+  rfl
+
+theorem forEach_ev {s : PState} {ft et it int nxt : Token} {b : List Token} {l : PExpr} {r1 : List Token}
+    {body : Stmt} {s3 : PState}
+    (hb : s.before = ft :: b) (hft : ft.tt = .for_) (h : s.after = et :: it :: int :: (l.toks ++ nxt :: r1))
+    (het : et.tt = .each) (hit : it.tt = .identifier) (hint : int.tt = .in_) (hl : l.OK)
+    (hnxt : stopsExpr nxt.tt)
+    (hbody : Evt (fun g => statement g (advs s (et :: it :: int :: l.toks) (nxt :: r1))) body s3) :
+    Evt (fun g => forEach g ft s) (.forEach it.lexeme it l.tree body ft et int (lastTok l.tree)) s3 := by
+  obtain ⟨f1, hf1⟩ := hl (adv (adv (adv s et (it :: int :: (l.toks ++ nxt :: r1))) it (int :: (l.toks ++ nxt :: r1)))
+    int (l.toks ++ nxt :: r1)) nxt r1 rfl hnxt
+  obtain ⟨f2, hf2⟩ := hbody
+  refine Evt.of_succ (max f1 f2) (fun g hg => ?_)
+  dsimp only at hf2 ⊢
+  have hst : advs (adv (adv (adv s et (it :: int :: (l.toks ++ nxt :: r1))) it (int :: (l.toks ++ nxt :: r1)))
+      int (l.toks ++ nxt :: r1)) l.toks (nxt :: r1) = advs s (et :: it :: int :: l.toks) (nxt :: r1) := by
+    simp [advs, adv]
+  simp only [P.forEach]
+  rw [confirm_eq hb hft]
+  simp only [PRes.bind_ok]
+  rw [consume_hit _ h het (by decide)]
+  simp only [PRes.bind_ok]
+  rw [consume_hit (t := it) (r := int :: (l.toks ++ nxt :: r1)) _ rfl hit (by decide)]
+  simp only [PRes.bind_ok]
+  rw [consume_hit (t := int) (r := l.toks ++ nxt :: r1) _ rfl hint (by decide)]
+  simp only [PRes.bind_ok]
+  rw [hf1 g (by omega)]
+  simp only [PRes.bind_ok]
+  rw [hl.previous (hf1 g (by omega))]
+  simp only [PRes.bind_ok]
+  rw [hst, hf2 g (by omega)]
+  rfl
+
+/-! ## procedures -/
+
+def SepList.toksO : Option SepList → List Token
+  | none => []
+  | some l => l.toks
+
+def paramsOf : Option SepList → List (Str × Token)
+  | none => []
+  | some l => l.items.map (fun t => (t.lexeme, t))
+
+/-- the part of `procedure` after the `PROCEDURE` token has been determined -/
+def procTail (f : Nat) (procTok : Token) (exported : Bool) (s : PState) : PRes Stmt :=
+  (consume .identifier (fun t => err1 "unnamed_procedure" [procTok.span, t.span]) s).bind fun nameTok s =>
+  (consume .leftParen (fun t => err1 "missing_lp" [t.span, nameTok.span]) s).bind fun _ s =>
+  (check .rightParen s).bind fun c s =>
+  (if c then .ok [] s else procParams f [] s).bind fun params s =>
+  (consume .rightParen (fun t => err1 "missing_rp" [t.span]) s).bind fun _ s =>
+  let fnCache := s.inFn
+  let loopCache := s.inLoop
+  (statement f { s with inFn := true, inLoop := false }).bind fun body s =>
+  .ok (.procDecl nameTok.lexeme params body exported procTok nameTok)
+    { s with inFn := fnCache, inLoop := loopCache }
+
+theorem procedure_plain (f : Nat) {t : Token} (s : PState) (ht : t.tt = .procedure) :
+    procedure (f+1) t s = procTail f t false s := by
+  simp only [P.procedure, ht]
+  rfl
+
+theorem procedure_export (f : Nat) {t pt : Token} {s : PState} {r : List Token} (ht : t.tt = .export_)
+    (h : s.after = pt :: r) (hpt : pt.tt = .procedure) :
+    procedure (f+1) t s = procTail f pt true (adv s pt r) := by
+  simp only [P.procedure, ht]
+  rw [consume_hit _ h hpt (by decide)]
+  rfl
+
+theorem procTail_ev {s : PState} {pt nt lp rp : Token} {exported : Bool} {ps : Option SepList} {r1 : List Token}
+    {body : Stmt} {s3 : PState}
+    (h : s.after = nt :: lp :: (SepList.toksO ps ++ rp :: r1)) (hnt : nt.tt = .identifier)
+    (hlp : lp.tt = .leftParen) (hps : ∀ l, ps = some l → l.OK .identifier ∧ l.more.length + 1 ≤ 255)
+    (hrp : rp.tt = .rightParen)
+    (hbody : Evt (fun g => statement g
+      { advs s (nt :: lp :: (SepList.toksO ps ++ [rp])) r1 with inFn := true, inLoop := false }) body s3) :
+    Evt (fun g => procTail g pt exported s) (.procDecl nt.lexeme (paramsOf ps) body exported pt nt)
+      { s3 with inFn := s.inFn, inLoop := s.inLoop } := by
+  obtain ⟨f2, hf2⟩ := hbody
+  dsimp only at hf2
+  cases ps with
+  | none =>
+    refine ⟨f2, fun g hg => ?_⟩
+    have h' : s.after = nt :: lp :: rp :: r1 := by simpa [SepList.toksO] using h
+    have hst : ({ adv (adv (adv s nt (lp :: rp :: r1)) lp (rp :: r1)) rp r1 with inFn := true, inLoop := false } : PState)
+        = { advs s (nt :: lp :: (SepList.toksO none ++ [rp])) r1 with inFn := true, inLoop := false } := by
+      simp [advs, adv, SepList.toksO]
+    dsimp only
+    unfold procTail
+    rw [consume_hit _ h' hnt (by decide)]
+    simp only [PRes.bind_ok]
+    rw [consume_hit (t := lp) (r := rp :: r1) _ rfl hlp (by decide)]
+    simp only [PRes.bind_ok]
+    rw [check_eq .rightParen (t := rp) (r := r1) rfl]
+    simp only [PRes.bind_ok, hrp, beq_self_eq_true, Bool.and_true]
+    have : (!(TT.rightParen == TT.eof)) = true := by decide
+    simp only [this, if_true, PRes.bind_ok]
+    rw [consume_hit (t := rp) (r := r1) _ rfl hrp (by decide)]
+    simp only [PRes.bind_ok]
+    rw [hst, hf2 g hg]
+    simp [paramsOf, advs, adv]
+  | some l =>
+    obtain ⟨hl, hlen⟩ := hps l rfl
+    refine ⟨max f2 (l.more.length + 1), fun g hg => ?_⟩
+    have h' : s.after = nt :: lp :: l.first :: (moreToks l.more ++ rp :: r1) := by
+      simpa [SepList.toksO, SepList.toks] using h
+    have hst : ({ adv (advs (adv (adv s nt (lp :: l.first :: (moreToks l.more ++ rp :: r1))) lp
+          (l.first :: (moreToks l.more ++ rp :: r1))) (l.first :: moreToks l.more) (rp :: r1)) rp r1
+          with inFn := true, inLoop := false } : PState)
+        = { advs s (nt :: lp :: (SepList.toksO (some l) ++ [rp])) r1 with inFn := true, inLoop := false } := by
+      simp [advs, adv, SepList.toksO, SepList.toks]
+    dsimp only
+    unfold procTail
+    rw [consume_hit _ h' hnt (by decide)]
+    simp only [PRes.bind_ok]
+    rw [consume_hit (t := lp) (r := l.first :: (moreToks l.more ++ rp :: r1)) _ rfl hlp (by decide)]
+    simp only [PRes.bind_ok]
+    rw [check_eq .rightParen (t := l.first) (r := moreToks l.more ++ rp :: r1) rfl]
+    have : (l.first.tt == TT.rightParen) = false := by rw [hl.1]; decide
+    simp only [PRes.bind_ok, this, Bool.and_false, Bool.false_eq_true, if_false]
+    rw [procParams_ev l.more l.first [] _ rp r1 g rfl hl.1 hl.2 (by rw [hrp]; decide) (by simpa using hlen)
+      (by omega)]
+    simp only [PRes.bind_ok]
+    rw [consume_hit (t := rp) (r := r1) _ rfl hrp (by decide)]
+    simp only [PRes.bind_ok]
+    rw [hst, hf2 g (by omega)]
+    simp [paramsOf, SepList.items, advs, adv]
+
+/-! ## blocks and the two statement loops -/
+
+theorem block_ev {s : PState} {lb rb : Token} {r1 rest : List Token} {stmts : List Stmt} {s2 : PState}
+    (h : s.after = lb :: r1) (hlb : lb.tt = .leftBrace)
+    (hloop : Evt (fun g => blockLoop g [] (adv s lb r1)) stmts s2) (h2 : s2.after = rb :: rest)
+    (hrb : rb.tt = .rightBrace) :
+    Evt (fun g => statement g s) (.block lb stmts rb) (adv s2 rb rest) := by
+  obtain ⟨f, hf⟩ := hloop
+  refine Evt.of_succ f (fun g hg => ?_)
+  dsimp only at hf ⊢
+  rw [statement_lbrace g h hlb, hf g hg]
+  simp only [PRes.bind_ok]
+  rw [consume_hit _ h2 hrb (by decide)]
+  rfl
+
+theorem blockLoop_close (g : Nat) (acc : List Stmt) {s : PState} {t : Token} {r : List Token}
+    (h : s.after = t :: r) (ht : t.tt = .rightBrace ∨ t.tt = .eof) : blockLoop (g+1) acc s = .ok acc s := by
+  simp only [P.blockLoop]
+  rw [check_eq _ h]
+  simp only [PRes.bind_ok]
+  rw [isAtEnd_eq h]
+  rcases ht with e | e <;> simp [e]
+
+theorem blockLoop_semi (g : Nat) (acc : List Stmt) {s : PState} {t : Token} {r : List Token}
+    (h : s.after = t :: r) (ht : t.tt = .softSemi) : blockLoop (g+1) acc s = blockLoop g acc (adv s t r) := by
+  simp only [P.blockLoop]
+  rw [check_eq _ h]
+  simp only [PRes.bind_ok]
+  rw [isAtEnd_eq h]
+  simp only [PRes.bind_ok, ht]
+  rw [matchToken_hit h ht (by decide)]
+  simp
+
+theorem blockLoop_decl (g : Nat) (acc : List Stmt) {s : PState} {t : Token} {r : List Token}
+    (h : s.after = t :: r) (h1 : t.tt ≠ .rightBrace) (h2 : t.tt ≠ .eof) (h3 : t.tt ≠ .softSemi) :
+    blockLoop (g+1) acc s = (declaration g s).bind fun st s => blockLoop g (acc ++ [st]) s := by
+  simp only [P.blockLoop]
+  rw [check_eq _ h]
+  simp only [PRes.bind_ok]
+  rw [isAtEnd_eq h]
+  have e1 : (t.tt == TT.rightBrace) = false := by simpa using h1
+  have e2 : (t.tt == TT.eof) = false := by simpa using h2
+  simp only [PRes.bind_ok, e1, e2]
+  rw [matchToken_miss h h3]
+  simp
+
+theorem parseLoop_eof (g : Nat) (stmts : List Stmt) {s : PState} {t : Token} {r : List Token}
+    (h : s.after = t :: r) (ht : t.tt = .eof) : parseLoop (g+1) stmts [] s = .ok stmts := by
+  simp only [parseLoop]
+  rw [isAtEnd_eq h]
+  simp [ht]
+
+theorem parseLoop_semi (g : Nat) (stmts : List Stmt) (errs : List PErr) {s : PState} {t : Token} {r : List Token}
+    (h : s.after = t :: r) (ht : t.tt = .softSemi) :
+    parseLoop (g+1) stmts errs s = parseLoop g stmts errs (adv s t r) := by
+  simp only [parseLoop]
+  rw [isAtEnd_eq h]
+  have e2 : (t.tt == TT.eof) = false := by rw [ht]; decide
+  simp only [e2]
+  rw [matchToken_hit h ht (by decide)]
+
+theorem parseLoop_decl (g : Nat) (stmts : List Stmt) (errs : List PErr) {s s1 : PState} {t : Token}
+    {r : List Token} {st : Stmt} (h : s.after = t :: r) (h2 : t.tt ≠ .eof) (h3 : t.tt ≠ .softSemi)
+    (hd : declaration g s = .ok st s1) :
+    parseLoop (g+1) stmts errs s = parseLoop g (stmts ++ [st]) errs s1 := by
+  simp only [parseLoop]
+  rw [isAtEnd_eq h]
+  have e2 : (t.tt == TT.eof) = false := by simpa using h2
+  simp only [e2]
+  rw [matchToken_miss h h3]
+  simp only [hd]
+
 end P
 end Aplang
